@@ -237,7 +237,15 @@ PinViolations == {k \in FutureKeys : Facts[k].unpin}
 DocCombo(f) == {c \in Combos(f) : c.l = "pl" /\ c.p = "sendsync" /\ c.b = "array"}
 MustSend == UNION {{Key(f, x.k, c) : c \in DocCombo(f), x \in {y \in f.kinds : y.k # "LocalTimerFuture"}} : f \in Families}
 MustSync == UNION {{Key(f, x.k, c) : c \in DocCombo(f), x \in {y \in f.kinds : ~y.fut}} : f \in Families}
+\* local flavours never cross threads: the no-op lock is neither Send nor Sync (it does not lock), the
+\* primitives and handles built on it are neither Send nor Sync, their futures are not Send
+LocalCombo(f) == {c \in Combos(f) : c.l = "noop"}
+LeakyKinds(f, c) == {y \in f.kinds : y.ar # "" /\ (IF y.root # "-" THEN Fact(f, y.k, c).send \/ Fact(f, y.k, c).sync
+                                                    ELSE y.fut /\ Fact(f, y.k, c).send)}
+LocalLeaks == (IF Facts["Lock|noop"].send \/ Facts["Lock|noop"].sync THEN {"Lock|noop"} ELSE {})
+              \cup UNION {UNION {{Key(f, x.k, c) : x \in LeakyKinds(f, c)} : c \in LocalCombo(f)} : f \in Families}
 Regressions == {<<"lost_send", k>> : k \in {x \in MustSend : ~Facts[x].send}}
                \cup {<<"lost_sync", k>> : k \in {x \in MustSync : ~Facts[x].sync}}
+               \cup {<<"local_crosses_threads", k>> : k \in LocalLeaks}
 ASSUME PrintT(<<"C16STATIC", ToJson([unpin |-> PinViolations, regressions |-> Regressions])>>)
 =============================================================================
